@@ -7,6 +7,7 @@ package vsync
 
 import (
 	"sync"
+	"sync/atomic"
 
 	"github.com/postalsys/muti-metroo/internal/vmc/sched"
 )
@@ -19,11 +20,16 @@ type Pool = sync.Pool
 type Mutex struct {
 	real   sync.Mutex
 	locked bool
+	// realHeld: the REAL mutex is held by a goroutine outside the controlled execution (agents'
+	// background loops run rewritten code beside the executions). Such a goroutine pairs its own real
+	// Lock / Unlock; without this flag its Unlock would release a LOGICAL hold of a controlled thread.
+	realHeld atomic.Int32
 }
 
 func (m *Mutex) Lock() {
 	if !sched.Active() {
 		m.real.Lock()
+		m.realHeld.Store(1)
 		return
 	}
 	sched.Block("Mutex.Lock", func() bool { return !m.locked })
@@ -32,7 +38,11 @@ func (m *Mutex) Lock() {
 
 func (m *Mutex) TryLock() bool {
 	if !sched.Active() {
-		return m.real.TryLock()
+		ok := m.real.TryLock()
+		if ok {
+			m.realHeld.Store(1)
+		}
+		return ok
 	}
 	sched.Point("Mutex.TryLock")
 	if m.locked {
@@ -44,10 +54,11 @@ func (m *Mutex) TryLock() bool {
 
 func (m *Mutex) Unlock() {
 	if !sched.Active() {
-		if m.locked { // locked under the scheduler, released during abort/unwind
+		if m.realHeld.Load() == 0 && m.locked { // locked under the scheduler, released during abort/unwind
 			m.locked = false
 			return
 		}
+		m.realHeld.Store(0)
 		m.real.Unlock()
 		return
 	}
@@ -63,11 +74,15 @@ type RWMutex struct {
 	real    sync.RWMutex
 	writer  bool
 	readers int
+	// holds of the REAL lock by goroutines outside the controlled execution (see Mutex.realHeld)
+	realWriter  atomic.Int32
+	realReaders atomic.Int32
 }
 
 func (m *RWMutex) Lock() {
 	if !sched.Active() {
 		m.real.Lock()
+		m.realWriter.Store(1)
 		return
 	}
 	sched.Block("RWMutex.Lock", func() bool { return !m.writer && m.readers == 0 })
@@ -76,10 +91,11 @@ func (m *RWMutex) Lock() {
 
 func (m *RWMutex) Unlock() {
 	if !sched.Active() {
-		if m.writer {
+		if m.realWriter.Load() == 0 && m.writer {
 			m.writer = false
 			return
 		}
+		m.realWriter.Store(0)
 		m.real.Unlock()
 		return
 	}
@@ -93,6 +109,7 @@ func (m *RWMutex) Unlock() {
 func (m *RWMutex) RLock() {
 	if !sched.Active() {
 		m.real.RLock()
+		m.realReaders.Add(1)
 		return
 	}
 	sched.Block("RWMutex.RLock", func() bool { return !m.writer })
@@ -101,10 +118,11 @@ func (m *RWMutex) RLock() {
 
 func (m *RWMutex) RUnlock() {
 	if !sched.Active() {
-		if m.readers > 0 {
+		if m.realReaders.Load() == 0 && m.readers > 0 {
 			m.readers--
 			return
 		}
+		m.realReaders.Add(-1)
 		m.real.RUnlock()
 		return
 	}
